@@ -7,6 +7,7 @@ use crate::algo::floyd_warshall::floyd_warshall_path;
 use crate::algo::{dijkstra, min_spanning_tree, BoundedMeasure, Measure};
 use crate::data::FromElements;
 use crate::graph::{IndexType, NodeIndex, UnGraph};
+use crate::unionfind::UnionFind;
 use crate::visit::{
     Data, EdgeRef, GraphBase, GraphProp, IntoEdgeReferences, IntoEdges, IntoNeighbors,
     IntoNodeIdentifiers, IntoNodeReferences, NodeCompactIndexable, NodeIndexable, Visitable,
@@ -195,6 +196,13 @@ where
         subgraph_edges.contains(&(edge.0, edge.1)) || subgraph_edges.contains(&(edge.1, edge.0))
     });
     graph.retain_nodes(|_, n| subgraph_nodes.contains(&n));
+
+    // The union of the shortest paths may contain cycles, keep a spanning forest of it.
+    let mut subtrees = UnionFind::<usize>::new(graph.node_bound());
+    graph.retain_edges(|graph, e| {
+        let (a, b) = graph.edge_endpoints(e).unwrap();
+        subtrees.union(a.index(), b.index())
+    });
 
     let non_terminal_nodes = non_terminal_leaves(&graph, terminals);
     graph.retain_nodes(|_, n| !non_terminal_nodes.contains(&n));
